@@ -46,6 +46,21 @@ def body_fixed(rnd, kind):
         c1, c2 = rnd.sample(range(4), 2)
         return [FE("l", "i", [{"k": "if", "arms": [{"c": B(rnd.choice(["eq", "ge"]), SUB("nl", IX("i")), F("k")), "body": [E(B("eq", SUB("l", IX("i")), lit(c1)))]}],
                                "els": [E(B("eq", SUB("l", IX("i")), lit(c2)))]}], it=False, idx=True)]
+    if kind == "fe_notidx":
+        # a NEGATED condition on the index: folded while the foreach is unrolled
+        c1, c2 = rnd.sample(range(4), 2)
+        cond = {"k": "not", "e": B(rnd.choice(["eq", "ge"]), IX("i"), lit(rnd.choice([0, 1])))}
+        return [FE("l", "i", [{"k": "if", "arms": [{"c": cond, "body": [E(B("eq", SUB("l", IX("i")), lit(c1)))]}],
+                               "els": [E(B("eq", SUB("l", IX("i")), lit(c2)))]}], it=False, idx=True)]
+    if kind == "fe_part":
+        # a bit / part select of the element inside the body
+        b_ = rnd.choice([0, 1])
+        return [FE("l", "i", [E(B("eq", {"k": "part", "e": SUB("l", IX("i")), "hi": b_, "lo": b_}, lit(rnd.choice([0, 1]))))], it=False, idx=True),
+                FE("l", "j", [E(B("ne", {"k": "part", "e": IT("j"), "hi": 1, "lo": 0}, F("k")))])]
+    if kind == "idx_merge":
+        # two separately constrained variables (a, l[0]) related afterwards by a literal subscript
+        return [E(B("lt", F("a"), lit(3))), E(B("le", SUB("l", 0), lit(rnd.choice([1, 2])))), E(B(rnd.choice(["lt", "le"]), F("a"), SUB("l", 0))),
+                {"k": "soft", "e": B("eq", SUB("l", 0), lit(1))}]
     if kind == "sum":
         return [E(B(rnd.choice(["eq", "le", "ge"]), {"k": "sum", "l": "l"}, rnd.choice([lit(rnd.randrange(7)), F("a")])))]
     if kind == "prod":
@@ -53,6 +68,8 @@ def body_fixed(rnd, kind):
     if kind == "prod_fe":
         return [E(B(rnd.choice(["eq", "le"]), {"k": "prod", "l": "l"}, lit(rnd.choice([2, 4, 6, 9])))),
                 FE("l", "i", [E(B("gt", SUB("l", IX("i")), lit(0)))], it=False, idx=True)]
+    if kind == "fe_toggle":
+        return [E(B("le", F("a"), lit(3)))]      # (the foreach lives in block c9, toggled by the history)
     if kind == "uniq":
         return [{"k": "uniq", "args": [{"k": "lst", "p": "l"}]}]
     if kind == "uniq_mixed":
@@ -66,7 +83,7 @@ def body_fixed(rnd, kind):
     raise ValueError(kind)
 
 
-FIXED_KINDS = ["fe_it", "fe_idx", "fe_both", "fe_sorted", "fe_guard", "sum", "uniq", "uniq_mixed", "member", "index", "nl_member", "prod", "prod_fe", "fe_tbl"]
+FIXED_KINDS = ["fe_it", "fe_idx", "fe_both", "fe_sorted", "fe_guard", "sum", "uniq", "uniq_mixed", "member", "index", "nl_member", "prod", "prod_fe", "fe_tbl", "fe_notidx", "fe_part", "idx_merge", "fe_toggle"]
 
 
 def family_fixed(tier, seed, n=None):
@@ -77,7 +94,7 @@ def family_fixed(tier, seed, n=None):
             core = t < (per + 1) // 2
             rnd = random.Random((404 if core else 4100 + seed) * 100003 + t * 31 + FIXED_KINDS.index(kind))
             size = rnd.choice([0, 1, 2, 3, 3])
-            if kind in ("index",):
+            if kind in ("index", "idx_merge"):
                 size = 3
             fields = [fld("a", 2, False), fld("k", 2, False, rand=False, init=rnd.randrange(4)),
                       list_field("l", 2, rnd.random() < 0.2 and kind not in ("sum",), init=[0] * size, cap=5),
@@ -85,11 +102,18 @@ def family_fixed(tier, seed, n=None):
             body = body_fixed(rnd, kind)
             if rnd.random() < 0.4:
                 body.append(E(B("ne", F("a"), F("k"))))
-            world = {"classes": {"A": {"base": "", "fields": fields, "blocks": [{"name": "c1", "dynamic": False, "body": body}]}},
+            blocks = [{"name": "c1", "dynamic": False, "body": body}]
+            if kind == "fe_toggle":
+                blocks.append({"name": "c9", "dynamic": False,
+                               "body": [FE("l", "i", [E(B(rnd.choice(["eq", "le"]), SUB("l", IX("i")), B("and", IX("i"), lit(3))))], it=False, idx=True)]})
+            world = {"classes": {"A": {"base": "", "fields": fields, "blocks": blocks}},
                      "population": [{"id": "o1", "cls": "A"}]}
             elems = ["o1.l[%d]" % i for i in range(size)]
             probe = {"op": "probe", "call": wcall(), "paths": ["o1.a"] + elems}
             ops = [{"op": "construct", "o": "o1"}, {"op": "call", "call": mcall()}, {"op": "call", "call": mcall()}, probe]
+            if kind == "fe_toggle":
+                # the block with the foreach is OFF during a call, the list changes, the block is switched on again
+                ops += [{"op": "cmode", "o": "o1", "b": "c9", "en": False}, {"op": "call", "call": mcall()}]
             # edits between calls: the next call acts on exactly the exposed list
             for _ in range(2):
                 ed = rnd.choice(["l_append", "l_clear+", "l_assign", "l_setitem", "nl_append", "set_k"])
@@ -115,6 +139,8 @@ def family_fixed(tier, seed, n=None):
                     ops.append({"op": "list", "kind": "l_assign", "p": "o1.l", "vs": [bits(0, 2)] * 3})
                     size = 3
                 elems = ["o1.l[%d]" % i for i in range(size)]
+                if kind == "fe_toggle":
+                    ops.append({"op": "cmode", "o": "o1", "b": "c9", "en": _ == 0})
                 ops.append({"op": "call", "call": mcall()})
                 ops.append({"op": "probe", "call": wcall(), "paths": ["o1.a"] + elems, "cap": 1024})
             out.append({"id": "L/fixed/%s/%s/%d" % (kind, "core" if core else "s%d" % seed, t), "world": world, "ops": ops, "tags": []})
